@@ -44,6 +44,9 @@ def prog_name(P):
     return "%s:%s" % (P["hdr"]["name"] or "none", "/".join(P["pn"][0]) if P["pn"] else "-") + (":" + "+".join(f for f in P["flag"] if f) if P["flag"] else "")
 
 
+DESIGN = [("CliImplPinnedValue", "ValueLaw"), ("CliImplPinnedGenerate", "Atomic"), ("CliImplPinnedParse", "NothingDropped"),
+          ("CliImplRepaired", None), ("CliImplRepairedOk", None)]
+
 # quick-tier caps per program (BFS depth 1 generates every pool invocation; the quick tier runs a seeded sample)
 CAPS = {"App1": 220, "App2": 400, "App3": 220, "App4": 150, "none": 100, "App5": 100}
 
@@ -65,9 +68,15 @@ def generate(ctx, quick, rnd):
         jobs.append((("sim", k), dict(progs="ProgsAll", depth=dsim, mode="sim"),
                      dict(workers=1, timeout=1800, simulate="num=%d" % num, depth=dsim + 2, seed=ctx.seed * 100 + k), None))
 
+    # (0) design level: the mechanisms as the code had them violate their law (counterexample), the repaired ones do not
+    for cfg, inv in DESIGN:
+        jobs.append((("design", cfg, inv), None, dict(workers=1, timeout=600), None))
+
     def one(job):
         key, cfg, kw, cap = job
-        d = ctx.scratch("gen-" + "-".join(str(x) for x in key))
+        d = ctx.scratch("gen-" + "-".join(str(x) for x in key[:2]))
+        if key[0] == "design":
+            return key, core.run_tlc(d, "CliImpl", key[1] + ".cfg", **kw), cap
         gen_cfg(os.path.join(d, "X.cfg"), cfg["progs"], cfg["depth"], cfg["mode"])
         r = core.run_tlc(d, "CliGen", "X.cfg", files=[(os.path.join(d, "X.cfg"), "X.cfg")], **kw)
         return key, r, cap
@@ -76,6 +85,15 @@ def generate(ctx, quick, rnd):
         results = list(ex.map(one, jobs))
     cases = []
     for key, r, cap in results:
+        if key[0] == "design":
+            ok = (r.rc == 12 and r.violated == key[2]) if key[2] else r.rc == 0
+            ctx.extra["design_" + key[1]] = ("violates " + key[2]) if key[2] else "holds"
+            if not ok:
+                raise core.Infra("CliImpl/%s: expected %s, got rc=%d violated=%s (the design model lost its teeth)" % (
+                    key[1], ("a counterexample to " + key[2]) if key[2] else "no violation", r.rc, r.violated))
+            if not key[2]:
+                ctx.add_tlc(r)
+            continue
         if r.rc != 0:
             raise core.Infra("CliGen %s violates its own invariant %s" % (key, r.violated))
         cs = uniq_cases(r.values)
